@@ -99,8 +99,8 @@ def canon(j):
 def canon_flat(entries):
   """entries [[key, fval]] -> sorted, values canonical; key is a list (tuple path) or a str"""
 
-  def kk(k):
-    return tuple(_ksort(x) for x in k) if isinstance(k, list) else (k,)
+  def kk(k):  # total even when an implementation mixes str and tuple keys
+    return (1, tuple(_ksort(x) for x in k)) if isinstance(k, (list, tuple)) else (0, (str(k),))
 
   return sorted(([k, (v if v == 'E' else {'V': canon(v['V'])}) if not isinstance(v, int) else v] for k, v in entries), key=lambda e: kk(e[0]))
 
@@ -328,13 +328,17 @@ def check_rt(ctx, drv, cases, libs=('tu', 'nnx')):
       snap = None
       if f[0] == 'ok':
         # snapshot first: outside the domain unflatten may assign into a dict that the flat map shares with the input
-        snap = canon_flat([[list(k) if sep is None else k, fv_json(v, empty)] for k, v in f[1].items()])
+        snap = canon_flat([[list(k) if isinstance(k, tuple) else k, fv_json(v, empty)] for k, v in f[1].items()])
         u = call(unflatten, f[1], sep=sep)
       cc = dict(c, lib=lib)
       # ---- property oracle (only inside the property's domain)
       if in_domain:
         if f[0] != 'ok' or u[0] != 'ok':
           ctx.violation('rt-raises', f'{lib}: flatten/unflatten raised {f if f[0] != "ok" else u} on {cc}', cc)
+          continue
+        badk = [k for k in f[1] if not isinstance(k, (tuple if sep is None else str))]
+        if badk:
+          ctx.violation('flatten-key-not-joined', f'{lib}: flatten{(keep, spec, sep)} of {x0!r} has keys {badk!r}: with sep every key (empty-node entries included) must be the str sep.join(path), without it a tuple', cc)
           continue
         want_flat = ref_flat(x0, keep, isleaf, empty)
         if sep is not None:
@@ -367,7 +371,7 @@ def check_rt(ctx, drv, cases, libs=('tu', 'nnx')):
           'rt-model-mismatch' + ('' if in_domain else '-sep-overlap'),
           f'{lib}: model and implementation differ on {cc}: impl flat={i_flat} rt={i_rt}; model flat={mm_flat} rt={mm_rt}', cc, concrete=False)
       elif f[0] == 'ok' and 'ok' in m_flat:
-        same_order = [e[0] for e in m_flat['ok']] == [list(k) if sep is None else k for k in f[1].keys()]
+        same_order = [e[0] for e in m_flat['ok']] == [list(k) if isinstance(k, tuple) else k for k in f[1].keys()]
         ctx.count('flat_order_agrees', same_order)
       if root_leaf:
         ctx.count('excluded_point', 'root-leaf:' + (i_rt[1] if i_rt[0] == 'err' else 'wrapped'))
